@@ -1265,6 +1265,15 @@ class Simulation:
             # Get and add this source field.
             rfield.field += src.get_field(grid=grid, frequency=freq).field
 
+        # The adjoint of sampling a field with zero tangential components at
+        # the boundary (PEC) has no tangential components at the boundary.
+        rfield.fx[:, 0, :] = rfield.fx[:, -1, :] = 0.
+        rfield.fx[:, :, 0] = rfield.fx[:, :, -1] = 0.
+        rfield.fy[0, :, :] = rfield.fy[-1, :, :] = 0.
+        rfield.fy[:, :, 0] = rfield.fy[:, :, -1] = 0.
+        rfield.fz[0, :, :] = rfield.fz[-1, :, :] = 0.
+        rfield.fz[:, 0, :] = rfield.fz[:, -1, :] = 0.
+
         return rfield
 
     @utils._requires('discretize')
